@@ -21,7 +21,8 @@ A RESIZE MAY LAND WHILE A MEMOISED BODY RUNS: the op TSR c r x y is the
 `terminal_size_cached` probe called with a resize armed in its body (the body reads the
 terminal, then the terminal becomes (c, r, x, y), then the body returns).  The value
 computed for the old size must not be served for the new one: every 8th history is built
-around [probe; probe with a resize to another size landing in its body; probe]."""
+around [(probe; plain resize;) probe that has to compute, with a resize to another size
+landing in its body; probe]."""
 from __future__ import annotations
 
 import copy
@@ -133,8 +134,8 @@ def gen_abort_case(rng, maxlen=14):
 
 
 def gen_tsr_case(rng, maxlen=14):
-    """[probe; probe with a resize to another size (in cells AND pixels) landing in its body;
-    probe], embedded in a random history"""
+    """[(probe; plain resize;) probe with a resize to another size (in cells AND pixels) landing in
+    its body — a call that has to COMPUTE —; probe], embedded in a random history"""
     env = gen_env(rng)
     sizes = []
     while len(sizes) < 3:                 # pairwise different in cells AND in pixels
@@ -154,22 +155,21 @@ def gen_tsr_case(rng, maxlen=14):
     elif u < 0.6:                         # a plain resize before the next call
         core_ops = core_ops[:-1] + [["R"] + list(rng.choice(pool)), ["TS"]]
 
-    def filler(n, resizes=True):
+    def filler(n, quiet=False):
+        """quiet: nothing that moves the terminal or touches the probe's entry"""
         out = []
         for _ in range(n):
-            v = rng.random() if resizes else rng.uniform(0.15, 1.0) * (1 if rng.random() < 0.8 else 0) + 0.5 * 0
-            if not resizes and 0.36 <= v < 0.50:
-                v = 0.9
-            if v < 0.15 and resizes:
+            v = rng.random()
+            if v < 0.15 and not quiet:
                 out.append(["R"] + list(rng.choice(pool)))
             elif v < 0.30:
                 out.append([rng.choice(["ES", "DS", "EQ", "DQ"])])
             elif v < 0.36:
                 out.append(["SR", rng.choice(["F", "D", [3, 4]])])
-            elif v < 0.50:
+            elif v < 0.50 and not quiet:
                 out.append(["TSR"] + list(rng.choice(pool)))
             else:
-                g = rng.choice(["CS", "CR", "CO", "NV", "K", "TS", "TS", "TS"])
+                g = rng.choice(["CS", "CR", "CO", "NV", "K"] + ([] if quiet else ["TS", "TS", "TS"]))
                 out.append([g, rng.randrange(3)] if g == "CO" else [g])
         return out
 
@@ -178,7 +178,7 @@ def gen_tsr_case(rng, maxlen=14):
     k = len(core_ops) - 1
     between = filler(1) if rng.random() < 0.12 else []   # something between the resized call and the next one
     # (nothing that moves the terminal or the probe's entry before the core pattern)
-    ops = filler(n1, False) + core_ops[:k] + between + core_ops[k:] + filler(rng.randint(0, max(0, room - n1)))
+    ops = filler(n1, True) + core_ops[:k] + between + core_ops[k:] + filler(rng.randint(0, max(0, room - n1)))
     return {"env": env, "t0": a, "ops": ops}
 
 
@@ -529,8 +529,8 @@ def run(ctx):
         "rule": "corpus + random histories (1-20 ops) over resize / swap toggles / query toggles / set_cell_ratio "
                 "(FIXED, DYNAMIC, floats incl. non-positive) / get_cell_size / get_cell_ratio / get_fg_bg_colors "
                 "(three argument tuples) / get_terminal_name_version / TextImage._is_on_kitty / a terminal_size_cached "
-                "probe / the probe with a resize landing WHILE ITS BODY RUNS (every 8th history is built around [probe; probe "
-                "with a resize to another size in its body; probe]) / the same getters with a fault armed inside query_terminal (KeyboardInterrupt, OSError, "
+                "probe / the probe with a resize landing WHILE ITS BODY RUNS (every 8th history is built around [(probe; resize;) "
+                "computing probe with a resize to another size in its body; probe]) / the same getters with a fault armed inside query_terminal (KeyboardInterrupt, OSError, "
                 "termios.error: ABORTED computations; every 4th history is built around [get; resize in cells without "
                 "ioctl pixel size; aborted get; get again]), on scripted terminals (ioctl pixel size or not, XTWINOPS cell / text-area replies or not, "
                 "XTVERSION or TERM_PROGRAM, colours or not, no tty).  After every op: return value + body counters; "
